@@ -109,7 +109,7 @@ def invariant_step(v):
         check('origin-sample-is-zero', And(approx(elem(ifg.x, H // 2, W // 2), 0, 1e-9), approx(elem(ifg.y, H // 2, W // 2), 0, 1e-9)))
 
 
-@harness('C12', 'bounded/operation-histories', kind='bounded', variants=['random-history', 'statistics', 'idempotence'],
+@harness('C12', 'bounded/operation-histories', kind='bounded', variants=['random-history', 'statistics', 'idempotence', 'filter'],
          fuc=['prysm._richdata.RichData.x', 'prysm._richdata.RichData.y', 'prysm._richdata.RichData.r', 'prysm._richdata.RichData.t',
               'prysm.interferogram.Interferogram.fill', 'prysm.interferogram.Interferogram.crop', 'prysm.interferogram.Interferogram.recenter',
               'prysm.interferogram.Interferogram.remove_piston', 'prysm.interferogram.Interferogram.remove_tiptilt',
@@ -201,6 +201,29 @@ def histories(which):
         check('interferogram-properties', bool(np.isclose(ifg.rms, U.rms(d)) and np.isclose(ifg.pv, U.pv(d)) and np.isclose(ifg.std, U.std(d))))
         ifg.remove_piston()
         check('piston-removed-leaves-zero-mean', bool(abs(U.mean(ifg.data)) < 1e-9))
+        # single-precision phase maps that still carry a piston much larger than their ripple (statistics read before the piston is
+        # removed): the statistics must be those of the samples, not of a cancellation
+        ripple = rng.standard_normal((H, W)).astype(np.float32)
+        big = (ripple + np.float32(rng.uniform(1e3, 2e4))).astype(np.float32)
+        big[~np.isfinite(d)] = np.nan
+        ref = big[np.isfinite(big)].astype(np.float64)
+        i32 = I(big.copy(), dx=dx)
+        check('float32-with-piston-std', bool(np.isclose(float(U.std(big)), ref.std(), rtol=2e-2) and np.isclose(float(i32.std), ref.std(), rtol=2e-2)))
+        check('float32-with-piston-Sa<=std<=PV', bool(float(U.Sa(big)) <= float(U.std(big)) * (1 + 1e-3) and float(U.std(big)) <= float(U.pv(big)) * (1 + 1e-3)))
+    elif which == 'filter':
+        # NaN-free maps of every parity through every filter type: the data keep their shape, so do the coordinates
+        z2 = rng.standard_normal((H, W)) * 10
+        f2 = I(z2.copy(), dx=dx)
+        if rng.random() < 0.5:
+            _ = f2.x, f2.r
+        nyq = 0.5 / dx
+        typ = str(rng.choice(['lowpass', 'highpass', 'bandpass', 'bandreject']))
+        fc = float(rng.uniform(0.1, 0.8)) * nyq if typ in ('lowpass', 'highpass') else (0.2 * nyq, 0.6 * nyq)
+        f2.filter(fc, typ)
+        check('filter-keeps-the-shape', f2.data.shape == (H, W))
+        for name, ok in _coherent(np, f2, 'after-filter'):
+            check(name, ok)
+        check('filter-output-finite-and-real', bool(np.isfinite(f2.data).all() and np.isrealobj(f2.data)))
     else:
         if np.isfinite(ifg.data).sum() < 8:
             raise PathAbort('too few samples')
